@@ -316,17 +316,17 @@ Fixpoint equiv (am : arr_opt) (hm : aoh_opt) (a b : node) {struct a} : bool :=
   | _, _ => data_eq a b
   end.
 
-(* ---- guard of finding F4 (identity-key modes, --arrays position): every
-   sequence pair the comparison reads by identity key is well keyed -- all
-   elements of both lists are records holding a scalar under the identity
-   key, with pairwise different identity values -- checked along the pairing
-   the modes define (mapping values by key, positional lists by position,
-   keyed lists by identity) ---- *)
+(* ---- guard of finding F4 (identity-key modes): every sequence pair the
+   comparison reads by identity key is well keyed -- all elements of both
+   lists are records holding a scalar under the identity key, with pairwise
+   different identity values -- checked along the pairing the modes define
+   (mapping values by key, positional lists by position, value-synchronised
+   lists by equal elements, keyed lists by identity) ---- *)
 Definition keyed_list (K : pyval) (els : list node) : bool :=
   forallb (fun x => match id_val K x with Some _ => true | None => false end) els &&
   nodup_vals (map (id_or_none K) els).
 
-Fixpoint kguard (hm : aoh_opt) (a b : node) {struct a} : bool :=
+Fixpoint kguard (am : arr_opt) (hm : aoh_opt) (a b : node) {struct a} : bool :=
   match a, b with
   | NMap _ kvs, NMap _ kvs' =>
       (fix go (l : list (node * node)) : bool :=
@@ -334,18 +334,25 @@ Fixpoint kguard (hm : aoh_opt) (a b : node) {struct a} : bool :=
          | [] => true
          | kv :: r =>
              match assoc_key (leaf_value (fst kv)) kvs' with
-             | Some w => kguard hm (snd kv) w
+             | Some w => kguard am hm (snd kv) w
              | None => true
              end && go r
          end) kvs
   | NSeq _ els, NSeq _ els' =>
-      match list_mode ArrPosition hm els' with
+      match list_mode am hm els' with
       | LPos true =>
           (fix go (l l' : list node) {struct l} : bool :=
              match l, l' with
-             | x :: r, y :: r' => kguard hm x y && go r r'
+             | x :: r, y :: r' => kguard am hm x y && go r r'
              | _, _ => true
              end) els els'
+      | LPos false => true
+      | LValue =>
+          (fix go (l : list node) : bool :=
+             match l with
+             | [] => true
+             | x :: r => forallb (fun y => if data_eq x y then kguard am hm x y else true) els' && go r
+             end) els
       | LKey d =>
           match first_key els' with
           | Some K =>
@@ -354,12 +361,11 @@ Fixpoint kguard (hm : aoh_opt) (a b : node) {struct a} : bool :=
                  (fix go (l : list node) : bool :=
                     match l with
                     | [] => true
-                    | x :: r => forallb (fun y => if same_id K x y then kguard hm x y else true) els' && go r
+                    | x :: r => forallb (fun y => if same_id K x y then kguard am hm x y else true) els' && go r
                     end) els
                else true)
           | None => false
           end
-      | _ => true
       end
   | _, _ => true
   end.
